@@ -22,7 +22,8 @@ Inductive ev :=
 | ECb (k : kind) (c : nat) (ret : Z)
 | EAct (code : Z) (c : Z)          (* code: 1 D 2 R 3 U 4 S 5 P 6 X 7 L 8 I 9 K; c = target id or argument, -1 none *)
 | ESkip (code : Z) (c : Z)
-| EIt (c : nat).
+| EIt (c : nat)
+| ENew (c : nat).                  (* a connection object was allocated (model-only event, not printed) *)
 
 Inductive err :=
 | UseAfterFree (c : nat) | ServiceUseAfterFree | RefUnderflow (c : nat) | ServiceRefUnderflow
@@ -54,25 +55,27 @@ Record world := mkW {
   slots : nat -> option nat;   (* client slot -> connection id while the client object lives *)
   behs : kind -> list behav;
   destroy_called : bool;   (* ghost: the application called qb_ipcs_destroy *)
+  s_creator : bool;        (* ghost: the creator's reference (qb_ipcs_create) has not been dropped yet *)
   log : list ev            (* newest first *)
 }.
 
 Definition conn0 : conn := mkConn false INACTIVE 0 false false 0 0 false PNone 0.
 Definition world0 : world :=
-  mkW (fun _ => conn0) 0 true 1 [] false 1 [] (fun _ => None) (fun _ => []) false [].
+  mkW (fun _ => conn0) 0 true 1 [] false 1 [] (fun _ => None) (fun _ => []) false true [].
 
 (* ---- setters *)
-Definition set_conns f w := mkW f (next w) (s_alloc w) (s_rc w) (s_list w) (s_withdrawn w) (s_prio w) (jobs w) (slots w) (behs w) (destroy_called w) (log w).
-Definition set_next n w := mkW (conns w) n (s_alloc w) (s_rc w) (s_list w) (s_withdrawn w) (s_prio w) (jobs w) (slots w) (behs w) (destroy_called w) (log w).
-Definition set_svc a rc w := mkW (conns w) (next w) a rc (s_list w) (s_withdrawn w) (s_prio w) (jobs w) (slots w) (behs w) (destroy_called w) (log w).
-Definition set_list l w := mkW (conns w) (next w) (s_alloc w) (s_rc w) l (s_withdrawn w) (s_prio w) (jobs w) (slots w) (behs w) (destroy_called w) (log w).
-Definition set_withdrawn b w := mkW (conns w) (next w) (s_alloc w) (s_rc w) (s_list w) b (s_prio w) (jobs w) (slots w) (behs w) (destroy_called w) (log w).
-Definition set_prio p w := mkW (conns w) (next w) (s_alloc w) (s_rc w) (s_list w) (s_withdrawn w) p (jobs w) (slots w) (behs w) (destroy_called w) (log w).
-Definition set_jobs j w := mkW (conns w) (next w) (s_alloc w) (s_rc w) (s_list w) (s_withdrawn w) (s_prio w) j (slots w) (behs w) (destroy_called w) (log w).
-Definition set_slots s w := mkW (conns w) (next w) (s_alloc w) (s_rc w) (s_list w) (s_withdrawn w) (s_prio w) (jobs w) s (behs w) (destroy_called w) (log w).
-Definition set_behs b w := mkW (conns w) (next w) (s_alloc w) (s_rc w) (s_list w) (s_withdrawn w) (s_prio w) (jobs w) (slots w) b (destroy_called w) (log w).
-Definition set_destroy_called b w := mkW (conns w) (next w) (s_alloc w) (s_rc w) (s_list w) (s_withdrawn w) (s_prio w) (jobs w) (slots w) (behs w) b (log w).
-Definition set_log l w := mkW (conns w) (next w) (s_alloc w) (s_rc w) (s_list w) (s_withdrawn w) (s_prio w) (jobs w) (slots w) (behs w) (destroy_called w) l.
+Definition set_conns f w := mkW f (next w) (s_alloc w) (s_rc w) (s_list w) (s_withdrawn w) (s_prio w) (jobs w) (slots w) (behs w) (destroy_called w) (s_creator w) (log w).
+Definition set_next n w := mkW (conns w) n (s_alloc w) (s_rc w) (s_list w) (s_withdrawn w) (s_prio w) (jobs w) (slots w) (behs w) (destroy_called w) (s_creator w) (log w).
+Definition set_svc a rc w := mkW (conns w) (next w) a rc (s_list w) (s_withdrawn w) (s_prio w) (jobs w) (slots w) (behs w) (destroy_called w) (s_creator w) (log w).
+Definition set_list l w := mkW (conns w) (next w) (s_alloc w) (s_rc w) l (s_withdrawn w) (s_prio w) (jobs w) (slots w) (behs w) (destroy_called w) (s_creator w) (log w).
+Definition set_withdrawn b w := mkW (conns w) (next w) (s_alloc w) (s_rc w) (s_list w) b (s_prio w) (jobs w) (slots w) (behs w) (destroy_called w) (s_creator w) (log w).
+Definition set_prio p w := mkW (conns w) (next w) (s_alloc w) (s_rc w) (s_list w) (s_withdrawn w) p (jobs w) (slots w) (behs w) (destroy_called w) (s_creator w) (log w).
+Definition set_jobs j w := mkW (conns w) (next w) (s_alloc w) (s_rc w) (s_list w) (s_withdrawn w) (s_prio w) j (slots w) (behs w) (destroy_called w) (s_creator w) (log w).
+Definition set_slots s w := mkW (conns w) (next w) (s_alloc w) (s_rc w) (s_list w) (s_withdrawn w) (s_prio w) (jobs w) s (behs w) (destroy_called w) (s_creator w) (log w).
+Definition set_behs b w := mkW (conns w) (next w) (s_alloc w) (s_rc w) (s_list w) (s_withdrawn w) (s_prio w) (jobs w) (slots w) b (destroy_called w) (s_creator w) (log w).
+Definition set_destroy_called b w := mkW (conns w) (next w) (s_alloc w) (s_rc w) (s_list w) (s_withdrawn w) (s_prio w) (jobs w) (slots w) (behs w) b (s_creator w) (log w).
+Definition set_creator b w := mkW (conns w) (next w) (s_alloc w) (s_rc w) (s_list w) (s_withdrawn w) (s_prio w) (jobs w) (slots w) (behs w) (destroy_called w) b (log w).
+Definition set_log l w := mkW (conns w) (next w) (s_alloc w) (s_rc w) (s_list w) (s_withdrawn w) (s_prio w) (jobs w) (slots w) (behs w) (destroy_called w) (s_creator w) l.
 Definition logit e w := set_log (e :: log w) w.
 
 Definition updf {A} (f : nat -> A) (c : nat) (x : A) : nat -> A := fun i => if Nat.eqb i c then x else f i.
@@ -281,7 +284,7 @@ Section Lib.
     bind (if fixed then iterate false true w
           else match s_list w with [] => Ok w 0 | c :: _ => walk_orig (S (length (s_list w))) c w end) (fun w1 _ =>
     chks w1 (                                               (* qb_ipcs_us_withdraw(s) *)
-    unref_s (set_withdrawn true w1)))).
+    unref_s (set_creator false (set_withdrawn true w1))))).  (* "service destroyed, remove initial alloc ref" *)
 
   (* qb_ipcs_request_rate_limit (+ qb_ipcs_flowcontrol_set, _modify_dispatch_descriptor_) *)
   Definition rate_one (newfc : Z) (changed : bool) (c : nat) (w : world) : R :=
@@ -368,7 +371,7 @@ Section Lib.
     chks w (
     let c := next w in
     let x := mkConn true INACTIVE 1 false false 0 0 false P0 0 in       (* qb_ipcs_connection_alloc: conn_ref + service conn_ref *)
-    let w1 := set_slots (updf (slots w) slot (Some c)) (set_svc true (s_rc w + 1) (set_next (S c) (put c x w))) in
+    let w1 := logit (ENew c) (set_slots (updf (slots w) slot (Some c)) (set_svc true (s_rc w + 1) (set_next (S c) (put c x w)))) in
     bind (cb KAccept c w1) (fun w2 r =>
     chk c w2 (
     if negb (r =? 0) then
